@@ -10,7 +10,7 @@ from gen_config import *  # noqa
 PROP_FILES = ["Config/Properties_C18.v"]
 MANIFEST = dict(
     technique="Coq proof (case analysis over policy x cache x hash x server with arbitrary contents, SHA-256 an uninterpreted section variable; induction over fetch histories sharing one cache) on a Gallina port of fetch_remote_config_with_client, tied by an exhaustive run of the policy table through the re-exported function with a scripted HttpClient, sampled histories, and real kills at every hook point of the cache write",
-    text="Theorems C18_integrity, C18_never_caches_mismatch, C18_offline_never_fetches, C18_unreadable_entry_is_a_miss, C18_refresh_never_reads_cache, C18_normal_respects_ttl, C18_sequence_inv, C18_failed_fetch_leaves_cache, C18_crash_with_hash_safe, C18_crash_without_hash, and for several URLs sharing one cache directory keyed on the whole URL text C18_other_urls_untouched, C18_url_answer_depends_on_own_entry_only, C18_offline_unfetched_url_misses, C18_url_histories_independent hold for every hash function, every content, every clock value and every history (unbounded). The tie to the Rust code: the full product policy(3) x cache state(27: absent, 5 ages x 4 bodies, fresh / stale x 3 unreadable entries: torn inside a multi-byte character, invalid UTF-8 bytes, a directory at the entry path) x extends_sha256(11, incl. empty / prefix / upper-case / over-long / last-char-differs pins) x server(4) under the simulated and the wall clock, sampled histories of 2-4 fetches, sampled histories over 2-4 URLs that differ only in query string / fragment / letter case (scripted client and the real HTTP leg), and a child process killed at each named point of the cache write followed by a second run.",
+    text="Theorems C18_integrity, C18_never_caches_mismatch, C18_offline_never_fetches, C18_unreadable_entry_is_a_miss, C18_refresh_never_reads_cache, C18_normal_respects_ttl, C18_sequence_inv, C18_failed_fetch_leaves_cache, C18_crash_with_hash_safe, C18_crash_without_hash, and for several URLs sharing one cache directory keyed on the whole URL text C18_other_urls_untouched, C18_url_answer_depends_on_own_entry_only, C18_offline_unfetched_url_misses, C18_url_histories_independent hold for every hash function, every content, every clock value and every history (unbounded). The tie to the Rust code: the full product policy(3) x cache state(27: absent, 5 ages x 4 bodies, fresh / stale x 3 unreadable entries: torn inside a multi-byte character, invalid UTF-8 bytes, a directory at the entry path) x extends_sha256(11, incl. empty / prefix / upper-case / over-long / last-char-differs pins) x server(4) under the simulated and the wall clock, sampled histories of 2-4 fetches, sampled histories over 2-4 URLs that differ only in query string / fragment / letter case (scripted client and the real HTTP leg), and a child process killed at each named point of the cache write followed by a second run; explain / stats / snapshot and the root-less explain --sources under every policy; bodies that are not UTF-8 (the served bytes are what is verified and cached).",
     note="Trusted: Coq kernel, extraction, harness sgv-config (scripted client, clock virtualisation: a cache file written under the simulated clock is re-stamped with the simulated time), sha2, the file system's rename atomicity. ReqwestClient::get is exercised against a local plain-HTTP stub (status classes, request count per run, through config show / config validate / check); TLS, redirects that do carry a Location and real time-outs are not.",
     ref="5 (C18)")
 
@@ -642,6 +642,7 @@ class Stub:
         stub = self
         self.status, self.body, self.requests = 200, GOOD.encode(), 0
         self.routes, self.paths = {}, []          # request target (path?query) -> body; targets seen, in order
+        self.ctype = "text/plain; charset=utf-8"
 
         class Handler(http.server.BaseHTTPRequestHandler):
             protocol_version = "HTTP/1.1"
@@ -652,7 +653,7 @@ class Stub:
                 body = stub.routes.get(self.path, stub.body) if stub.status == 200 else b""
                 self.send_response(stub.status)
                 if stub.status == 200:
-                    self.send_header("Content-Type", "text/plain; charset=utf-8")
+                    self.send_header("Content-Type", stub.ctype)
                 self.send_header("Content-Length", str(len(body)))
                 self.end_headers()
                 if body:
@@ -694,7 +695,15 @@ def model_state(c):
 
 HTTP_CMDS = {"show": ["config", "show", "--format", "json"],
              "validate": ["config", "validate", "-c", ".sloc-guard.toml"],
-             "check": ["check", "--no-sloc-cache", "--format", "json", "."]}
+             "check": ["check", "--no-sloc-cache", "--format", "json", "."],
+             # every other command that resolves the extends chain through commands::context::load_config
+             "explain": ["explain", ".sloc-guard.toml", "--format", "json"],
+             "stats": ["stats", "summary", "--no-sloc-cache", "--format", "json"],
+             "snapshot": ["snapshot", "--no-sloc-cache"]}
+# `explain --sources` builds its loader WITHOUT a project root: it has no remote cache at all (nothing read, nothing
+# written). Model: Remote.fetch on the absent cache, the resulting cache dropped (RemoteUrls.fetch_noroot).
+NOROOT_CMDS = {"explain-sources": ["explain", "--sources"], "explain-sources-json": ["explain", "--sources", "--format", "json"],
+               "explain-sources-c": ["explain", "--sources", "-c", ".sloc-guard.toml"]}
 
 
 def run_real_server(ctx, env, st):
@@ -736,7 +745,14 @@ def run_real_server(ctx, env, st):
              (("fresh", OLD), [("refresh", None, 200), ("offline", None, 500)], "validate"),
              (("stale", OLD), [("offline", None, 500), ("normal", None, 200)], "validate"),
              (None, [("normal", g, 200), ("offline", g, 404), ("refresh", sha256_hex(OLD), 200)], "validate"),
-             (None, [("offline", None, 200), ("refresh", None, 200), ("offline", None, 503)], "check")]
+             (None, [("offline", None, 200), ("refresh", None, 200), ("offline", None, 503)], "check"),
+             # the remaining commands that resolve the chain (explain <path>, stats, snapshot)
+             (None, [("offline", None, 200), ("normal", None, 200), ("offline", None, 500)], "explain"),
+             (("fresh", OLD), [("refresh", None, 200), ("offline", None, 500)], "explain"),
+             (None, [("offline", None, 200), ("normal", g, 200), ("offline", g, 500)], "stats"),
+             (("stale", OLD), [("offline", None, 500), ("refresh", None, 200)], "stats"),
+             (None, [("offline", None, 200), ("normal", None, 200), ("offline", None, 500)], "snapshot"),
+             (("fresh", TORN_MB, "G"), [("offline", None, 200), ("refresh", None, 200)], "snapshot")]
     try:
         for (init, runs, cmd) in scen:
             with Sandbox("sgv-c18-http-") as sb:
@@ -926,6 +942,147 @@ def run_real_server_urls(ctx, env, st):
     ctx.sample({"level": "http-urls", "families": fams, "plan": plan})
 
 
+def run_real_server_noroot(ctx, env, st):
+    """The commands that resolve the chain without a project root (explain --sources), under every policy, over an
+    absent / fresh / stale cache entry of the URL, server healthy or failing. Statement: offline never sends a request and
+    fails on the cache miss (there is no cache to hit); refresh and normal send exactly one request (nothing can be read);
+    the cache directory is left exactly as it was; a pin is honoured; --no-extends sends nothing."""
+    try:
+        stub = Stub()
+    except OSError as e:
+        raise CheckBroken("cannot open a local HTTP server: %s" % e)
+    g = sha256_hex(GOOD)
+    ht = htable()
+    try:
+        for cmd, argv in sorted(NOROOT_CMDS.items()):
+            for init in (None, "fresh", "stale"):
+                for policy in ("offline", "normal", "refresh"):
+                    for (pin, code, noext) in ((None, 200, False), (None, 500, False), (g, 200, False), (sha256_hex(OLD), 200, False), (None, 200, True)):
+                        if cmd != "explain-sources" and (init == "stale" or code == 500 or pin == sha256_hex(OLD)):
+                            continue
+                        with Sandbox("sgv-c18-noroot-") as sb:
+                            url = "http://127.0.0.1:%d/base.toml" % stub.port
+                            sb.write(".sloc-guard.toml", 'extends = "%s"\n' % url + ('extends_sha256 = "%s"\n' % pin if pin is not None else ""))
+                            if init:
+                                cpath = prime_cache(env, sb.proj, url, OLD)
+                                if init == "stale":
+                                    t = os.stat(cpath).st_mtime - 7200
+                                    os.utime(cpath, (t, t))
+                            before = sorted((fs_state(e), int(os.stat(e).st_mtime)) for e in cache_entries(sb.proj))
+                            stub.status, stub.body, stub.routes = code, GOOD.encode(), {}
+                            n0 = stub.requests
+                            rc, out, err = sb.run(env["cli"], ["--color", "never", "--extends-policy", policy] + (["--no-extends"] if noext else []) + argv,
+                                                  env={"NO_PROXY": "127.0.0.1", "no_proxy": "127.0.0.1", "RAYON_NUM_THREADS": "1"})
+                            nreq = stub.requests - n0
+                            after = sorted((fs_state(e), int(os.stat(e).st_mtime)) for e in cache_entries(sb.proj))
+                            st["spawns"] += 1
+                            st["evals"] += 1
+                            tag = "http-noroot:%s:%s%s" % (cmd, policy, ":no-extends" if noext else "")
+                            st["hist"][tag] = st["hist"].get(tag, 0) + 1
+                            desc = {"level": "http-noroot", "command": " ".join(["--extends-policy", policy] + (["--no-extends"] if noext else []) + argv),
+                                    ".sloc-guard.toml": 'extends = "%s"' % url + ("; extends_sha256 = %s" % pin if pin else ""), "cache_entry_before": init, "server_status": code,
+                                    "impl": {"rc": rc, "requests": nreq, "cache_before": before, "cache_after": after, "stderr": err[-300:]}}
+                            if after != before:
+                                st["fails"].append(dict(desc, what="a command without a project root changed the remote cache: %r -> %r" % (before, after)))
+                            if noext:
+                                if nreq != 0 or rc != 0:
+                                    st["fails"].append(dict(desc, what="--no-extends: the leaf alone is loaded, %d request(s) sent, exit %d" % (nreq, rc)))
+                                else:
+                                    st["agree"] += 1
+                                continue
+                            # the model: fetch on the absent cache
+                            srv = ("B", GOOD) if code == 200 else ("F", 1)
+                            m = "fetch\t%s\t%d\t!\t%s\t%s\t%s" % (policy, N0, enc_opt(pin), server_field(srv), ht)
+                            mo, _, _ = run_lines(env["model"], [m])
+                            o, _, n_model = parse_fetch_out(mo[0])
+                            if (0 if o[0] == "CONTENT" else 2) != rc or n_model != nreq:
+                                st["mism"].append(dict(desc, model=mo[0], model_line=m))
+                            else:
+                                st["agree"] += 1
+                            if policy == "offline":
+                                if nreq != 0:
+                                    st["fails"].append(dict(desc, what="offline policy contacted the server (%d request(s) seen by the stub)" % nreq))
+                                if rc != 2 or "cache miss" not in err:
+                                    st["fails"].append(dict(desc, what="offline policy without a usable cache did not fail with the cache-miss error (exit %d)" % rc))
+                            else:
+                                if nreq != 1:
+                                    st["fails"].append(dict(desc, what="%s policy sent %d requests (exactly one required)" % (policy, nreq)))
+                                want = 0 if (code == 200 and pin in (None, g)) else 2
+                                if rc != want:
+                                    st["fails"].append(dict(desc, what="exit %d, required %d (server %d, pin %s)" % (rc, want, code, "matching" if pin == g else ("none" if pin is None else "of another body"))))
+                                elif want == 0 and "100" not in out:
+                                    st["fails"].append(dict(desc, what="the remote body (max_lines = 100) does not show in the output"))
+                            st["nontrivial"].add("http-noroot:" + repr((cmd, init, policy, pin, code)))
+    finally:
+        stub.close()
+    ctx.sample({"level": "http-noroot", "commands": sorted(NOROOT_CMDS), "policies": ["offline", "normal", "refresh"], "cache_entry": [None, "fresh", "stale"]})
+
+
+def run_real_server_bytes(ctx, env, st):
+    """The served BYTES (fix D170): the content that takes effect and is cached is byte for byte what the server sent, and a
+    pin is accepted iff it is the SHA-256 of those bytes. Bodies that a lossy decode would alter: an invalid byte inside
+    a comment, a multi-byte character cut at the end, a Latin-1 body declared as such, a valid multi-byte body (control)."""
+    import hashlib
+    try:
+        stub = Stub()
+    except OSError as e:
+        raise CheckBroken("cannot open a local HTTP server: %s" % e)
+    tail = b"[content]\nmax_lines = 77\n"
+    bodies = [("invalid byte 0xFF in a comment", b"# caf\xff\n" + tail, "text/plain; charset=utf-8"),
+              ("invalid byte, no charset declared", b"# caf\xff\n" + tail, "application/octet-stream"),
+              ("multi-byte character cut at the end", tail + b"# \xe2\x82", "text/plain; charset=utf-8"),
+              ("Latin-1 body declared as iso-8859-1", b"# caf\xe9\n" + tail, "text/plain; charset=iso-8859-1"),
+              ("UTF-16 declared, ASCII bytes", b"# plain\n" + tail, "text/plain; charset=utf-16le"),
+              ("valid multi-byte UTF-8 (control)", "# caf\u00e9 \u2713\n".encode("utf-8") + tail, "text/plain; charset=utf-8"),
+              ("valid UTF-8, no content type charset (control)", "# \u00fcber\n".encode("utf-8") + tail, "text/plain")]
+    try:
+        for label, raw, ctype in bodies:
+            lossy = raw.decode("utf-8", "replace").encode("utf-8")
+            valid = True
+            try:
+                raw.decode("utf-8")
+            except UnicodeDecodeError:
+                valid = False
+            pins = [("none", None), ("sha256 of the served bytes", hashlib.sha256(raw).hexdigest())]
+            if lossy != raw:
+                pins.append(("sha256 of the lossily decoded text (never served)", hashlib.sha256(lossy).hexdigest()))
+            for cmd in ("show", "check"):
+                for plabel, pin in pins:
+                    with Sandbox("sgv-c18-bytes-") as sb:
+                        url = "http://127.0.0.1:%d/base.toml" % stub.port
+                        sb.write(".sloc-guard.toml", 'extends = "%s"\n' % url + ('extends_sha256 = "%s"\n' % pin if pin else ""))
+                        stub.status, stub.body, stub.routes, stub.ctype = 200, raw, {}, ctype
+                        rc, out, err = sb.run(env["cli"], ["--color", "never"] + HTTP_CMDS[cmd], env={"NO_PROXY": "127.0.0.1", "no_proxy": "127.0.0.1", "RAYON_NUM_THREADS": "1"})
+                        st["spawns"] += 1
+                        st["evals"] += 1
+                        st["hist"]["http-bytes:" + label] = st["hist"].get("http-bytes:" + label, 0) + 1
+                        cached = [open(e, "rb").read() for e in cache_entries(sb.proj) if os.path.isfile(e)]
+                        desc = {"level": "http-bytes", "body": label, "served_bytes": repr(raw), "content_type": ctype, "extends_sha256": plabel, "command": " ".join(HTTP_CMDS[cmd]),
+                                "impl": {"rc": rc, "cached_bytes": [repr(c) for c in cached], "stderr": err[-300:]}}
+                        ok = True
+                        if rc == 0 and pin is not None and hashlib.sha256(raw).hexdigest() != pin:
+                            st["fails"].append(dict(desc, what="integrity: the server sent bytes with SHA-256 %s, extends_sha256 = %s was accepted" % (hashlib.sha256(raw).hexdigest(), pin)))
+                            ok = False
+                        if cached and cached != [raw]:
+                            st["fails"].append(dict(desc, what="the cache holds content the server never sent (%r instead of the served bytes)" % cached))
+                            ok = False
+                        if rc != 0 and cached:
+                            st["fails"].append(dict(desc, what="a rejected body was written to the cache"))
+                            ok = False
+                        if valid and (pin is None or pin == hashlib.sha256(raw).hexdigest()) and (rc != 0 or cached != [raw]):
+                            st["fails"].append(dict(desc, what="a valid UTF-8 body with %s was not applied and cached (exit %d)" % (plabel if pin else "no pin", rc)))
+                            ok = False
+                        if not valid and rc == 0:
+                            st["fails"].append(dict(desc, what="a body that is not UTF-8 took effect: the effective configuration is a text the server never sent"))
+                            ok = False
+                        if ok:
+                            st["agree"] += 1
+                            st["nontrivial"].add("http-bytes:" + label + plabel + cmd)
+    finally:
+        stub.close()
+    ctx.sample({"level": "http-bytes", "bodies": [b[0] for b in bodies]})
+
+
 # ------------------------------------------------------------------ vm_compute cross-check
 
 def xcheck(ctx, env, k):
@@ -987,6 +1144,8 @@ def run(ctx):
     run_cli_pins(ctx, env, st)
     run_real_server(ctx, env, st)
     run_real_server_urls(ctx, env, st)
+    run_real_server_noroot(ctx, env, st)
+    run_real_server_bytes(ctx, env, st)
     ctx.cov["extends_sha256_values_exercised"] = [{"label": l, "value": v} for l, v in pins()]
     xcheck(ctx, env, 40 if ctx.tier == "quick" else 300)
     ctx.cov["evaluations"] = st["evals"]
@@ -1007,7 +1166,9 @@ def run(ctx):
                        "(oracle per URL: offline on a URL that was never fetched is a miss without a request, the content is a body served for the configured URL, the client is asked for the "
                        "configured URL, one entry per fetched URL) and the same two-URL shape for 8 URL pairs through the real binary against the local HTTP server; the pin through the CLI (leaf.toml with extends_sha256, cached remote, --extends-policy offline, 10 string pin values and 5 pins that are not strings); the production client (reqwest) through the real binary against a local HTTP "
                        "server on 127.0.0.1 answering each of 200, 204, 300, 301 (no Location), 304, 400, 404, 500, 503, followed by a healthy run, plus offline / refresh / pinned scenarios, unreadable entries under every policy and the commands config show / config validate / check "
-                       "(requests counted by the server: offline 0, refresh exactly 1); every named hook point of the cache write killed in a child process (SGV_CRASH_AT) for 16 scenarios, each "
+                       "(requests counted by the server: offline 0, refresh exactly 1), also explain <path> / stats summary / snapshot; explain --sources (its loader has no project root, hence no cache: offline 0 requests and a cache-miss error "
+                       "over an absent / fresh / stale entry, normal and refresh exactly 1 request, cache untouched, pins honoured, --no-extends 0 requests); served bodies that a lossy decode would alter (invalid byte, cut multi-byte "
+                       "character, declared Latin-1 / UTF-16) with the pin of the served bytes, the pin of the decoded text, and no pin: what takes effect and is cached is byte for byte what was served; every named hook point of the cache write killed in a child process (SGV_CRASH_AT) for 16 scenarios, each "
                        "followed by three second runs with the server unreachable. Observables: returned content or error kind, requests seen by the scripted client, cache bytes "
                        "and mtime afterwards. Every row: impl vs extracted model, impl vs the python reading of the C18 statement. "
                        "non-trivial = distinct row with a cache entry or a pinned hash, every history, every (scenario, kill point) that was reached")
@@ -1016,7 +1177,7 @@ def run(ctx):
         "clock virtualisation: SGV_NOW for the TTL test; a cache file written during a simulated-clock run is re-stamped with the simulated time by the harness",
         "sha2 (SHA-256) is an uninterpreted function H in the theorems; the run checks it against hashlib",
         "rename(2) atomicity and the ordering of file-system effects as observed after SIGABRT (no power-loss model)"]
-    ctx.assumptions = ["a project root is present (the CLI always passes one); without it the cache is neither read nor written",
+    ctx.assumptions = ["a project root is present (every command but explain --sources passes one); without it the cache is neither read nor written: fetch on the absent cache, result not stored (RemoteUrls.fetch_noroot), exercised by the http-noroot leg",
                        "cache write errors other than a kill (disk full, permissions) are ignored by the code and not modelled"]
     # at most two replays per level, so that a defect seen at several levels is reported at each
     shown, per = [], {}
